@@ -3,11 +3,11 @@ package main
 // rules_async.go: C04 (conservation), C05 (stop/flush/descriptors), C06 (order and overflow policy).
 
 import (
-	"os"
 	"fmt"
 	"go/constant"
 	"go/token"
 	"go/types"
+	"os"
 	"sort"
 	"strings"
 
@@ -33,6 +33,11 @@ type asyncInfo struct {
 	Start    *ssa.Function
 	Worker   *ssa.Function
 	PutEvent *ssa.Function
+	// assumeFull makes runProducer explore only the paths on which the first non-blocking send attempt finds the
+	// queue full (the overflow policy is what happens then)
+	assumeFull bool
+	// assumeSpace explores only the paths on which every non-blocking send attempt succeeds (the queue never fills)
+	assumeSpace bool
 }
 
 func (c *Ctx) asyncInfo(ro *Roles, r *Report) *asyncInfo {
@@ -163,11 +168,13 @@ type pstate struct {
 	enq, cntv, deq, cntd int
 	gate                 string // "", "T", "F"
 	blk                  bool   // a blocking channel operation happened
+	tried                bool   // a non-blocking send on the queue was attempted on this path
+	rem                  bool   // an item was removed from the queue on this path (sticky)
 	bad                  string
 }
 
 func (p pstate) String() string {
-	return fmt.Sprintf("enq=%d;cntv=%d;deq=%d;cntd=%d;g=%s;blk=%v;bad=%s", p.enq, p.cntv, p.deq, p.cntd, p.gate, p.blk, p.bad)
+	return fmt.Sprintf("enq=%d;cntv=%d;deq=%d;cntd=%d;g=%s;blk=%v;tried=%v;rem=%v;bad=%s", p.enq, p.cntv, p.deq, p.cntd, p.gate, p.blk, p.tried, p.rem, p.bad)
 }
 
 func parsePstate(s string) pstate {
@@ -193,6 +200,10 @@ func parsePstate(s string) pstate {
 			p.gate = v
 		case "blk":
 			p.blk = v == "true"
+		case "tried":
+			p.tried = v == "true"
+		case "rem":
+			p.rem = v == "true"
 		case "bad":
 			p.bad = v
 		}
@@ -266,6 +277,23 @@ func (c *Ctx) runProducer(a *asyncInfo, ro *Roles, root *ssa.Function, policy co
 		if sel.Blocking {
 			p.blk = true
 		}
+		if !sel.Blocking {
+			hasSend := false
+			for _, st := range sel.States {
+				if st.Dir == types.SendOnly && chanFieldOf(st.Chan) == a.Buf {
+					hasSend = true
+				}
+			}
+			if hasSend {
+				if a.assumeFull && !p.tried && chosen >= 0 && sel.States[chosen].Dir == types.SendOnly && chanFieldOf(sel.States[chosen].Chan) == a.Buf {
+					return []string{} // the queue is full at the first attempt: this outcome is not explored
+				}
+				if a.assumeSpace && !(chosen >= 0 && sel.States[chosen].Dir == types.SendOnly && chanFieldOf(sel.States[chosen].Chan) == a.Buf) {
+					return []string{} // there is room: a send attempt does not fail
+				}
+				p.tried = true
+			}
+		}
 		if chosen >= 0 {
 			st := sel.States[chosen]
 			if chanFieldOf(st.Chan) == a.Buf {
@@ -278,6 +306,7 @@ func (c *Ctx) runProducer(a *asyncInfo, ro *Roles, root *ssa.Function, policy co
 					}
 				} else {
 					p.deq = sat(p.deq + 1)
+					p.rem = true
 					s.Trail = append(append([]string{}, s.Trail...), "DEQ "+c.instrPos(sel))
 				}
 			}
@@ -303,6 +332,7 @@ func (c *Ctx) runProducer(a *asyncInfo, ro *Roles, root *ssa.Function, policy co
 				p.blk = true
 				if chanFieldOf(x.X) == a.Buf {
 					p.deq = sat(p.deq + 1)
+					p.rem = true
 				}
 				return []string{p.String()}
 			}
@@ -520,7 +550,7 @@ func checkC04(c *Ctx, r *Report) {
 	if badAcc == 0 {
 		r.OK("C04.counter:"+a.T.Obj().Name()+"."+a.Counter.Name(), "%d accesses, all atomic.Add(+1) or atomic.Load", nAcc)
 	}
-	r.Floor("discard counter accesses", nAcc, 3)
+	r.Floor("discard counter accesses", nAcc, 2) // at least one increment and the accessor's load
 }
 
 // checkWorkerItems: per received item, exactly one fan-out unless it is the marker.
@@ -529,8 +559,48 @@ func (c *Ctx) checkWorkerItems(r *Report, ro *Roles, a *asyncInfo, rule string) 
 	key := rule + ":" + fname(w)
 	// the worker loop: the innermost natural loop around the receive(s) from the buffer (a `for v := range ch` loop
 	// receives in its own header; a `for { select { case v = <-ch: … } }` loop receives somewhere in its body)
+	// … in the worker function itself or in an unexported helper it was moved to (`go func() { c.drain(); close(done) }()`)
+	loopFn := w
+	hasRecv := func(f *ssa.Function) bool {
+		found := false
+		eachInstr(f, func(in ssa.Instruction) {
+			switch x := in.(type) {
+			case *ssa.UnOp:
+				if x.Op == token.ARROW && chanFieldOf(x.X) == a.Buf {
+					found = true
+				}
+			case *ssa.Select:
+				for _, st := range x.States {
+					if st.Dir == types.RecvOnly && chanFieldOf(st.Chan) == a.Buf {
+						found = true
+					}
+				}
+			}
+		})
+		return found
+	}
+	if !hasRecv(w) {
+		seen := map[*ssa.Function]bool{w: true}
+		frontier := []*ssa.Function{w}
+		for d := 0; d < 3 && loopFn == w; d++ {
+			var next []*ssa.Function
+			for _, f := range frontier {
+				for _, g := range c.moduleCallees(f) {
+					if seen[g] || g.Object() == nil || (g.Object().Exported() && recvNamed(g) != a.T) {
+						continue
+					}
+					seen[g] = true
+					if hasRecv(g) && loopFn == w {
+						loopFn = g
+					}
+					next = append(next, g)
+				}
+			}
+			frontier = next
+		}
+	}
 	var recvBlocks []*ssa.BasicBlock
-	for _, b := range w.Blocks {
+	for _, b := range loopFn.Blocks {
 		for _, in := range b.Instrs {
 			switch x := in.(type) {
 			case *ssa.UnOp:
@@ -548,7 +618,7 @@ func (c *Ctx) checkWorkerItems(r *Report, ro *Roles, a *asyncInfo, rule string) 
 	}
 	var header *ssa.BasicBlock
 	if len(recvBlocks) > 0 {
-		for _, b := range w.Blocks {
+		for _, b := range loopFn.Blocks {
 			isHeader := false
 			for _, p := range b.Preds {
 				if b == p || b.Dominates(p) {
@@ -574,20 +644,67 @@ func (c *Ctx) checkWorkerItems(r *Report, ro *Roles, a *asyncInfo, rule string) 
 		return
 	}
 	refAppend, refWrite := c.declaredMethod(ro.AppenderRef, "Append"), c.declaredMethod(ro.AppenderRef, "Write")
-	isFan := func(f *ssa.Function) bool {
+	// a fan-out is a function that itself (or in a function literal of its own: an iterator callback, a
+	// range-over-func body) hands the item to appenders — through the reference's Append/Write or directly through
+	// the reference's embedded appender
+	directHit := func(f *ssa.Function) bool {
 		hit := false
-		eachInstr(f, func(in ssa.Instruction) {
-			if ci, ok := in.(ssa.CallInstruction); ok {
-				if s := ci.Common().StaticCallee(); s != nil && (s == refAppend || s == refWrite) {
+		scan := func(g *ssa.Function) {
+			eachInstr(g, func(in ssa.Instruction) {
+				ci, ok := in.(ssa.CallInstruction)
+				if !ok {
+					return
+				}
+				com := ci.Common()
+				if s := com.StaticCallee(); s != nil && (s == refAppend || s == refWrite) {
 					hit = true
 				}
+				if com.IsInvoke() && (com.Method.Name() == "Append" || com.Method.Name() == "Write") && c.moduleIface(com.Value.Type()) {
+					hit = true
+				}
+			})
+		}
+		scan(f)
+		for _, an := range f.AnonFuncs {
+			scan(an)
+		}
+		return hit
+	}
+	isFan := func(f *ssa.Function) bool {
+		return f != nil && len(f.Blocks) > 0 && c.inModule(f) && recvNamed(f) != ro.AppenderRef && f.Parent() == nil && directHit(f)
+	}
+	reachesFan := map[*ssa.Function]bool{}
+	var reaches func(f *ssa.Function, d int) bool
+	reaches = func(f *ssa.Function, d int) bool {
+		if f == nil || d > 4 || len(f.Blocks) == 0 || !c.inModule(f) {
+			return false
+		}
+		if v, ok := reachesFan[f]; ok {
+			return v
+		}
+		reachesFan[f] = false
+		hit := isFan(f) || f == a.PutEvent
+		for _, g := range c.moduleCallees(f) {
+			if reaches(g, d+1) {
+				hit = true
 			}
-		})
-		return hit && recvNamed(f) != ro.AppenderRef
+		}
+		reachesFan[f] = hit
+		return hit
 	}
 	records := map[string]bool{}
 	exits := map[string]bool{}
 	ts := &TS{C: c, Ev: &Evaluator{}}
+	// helpers the worker's loop body was split into (deliver, dispatch, consume, publish …) are part of the worker
+	ts.Inline = func(s *TSCtx, call ssa.CallInstruction, callee *ssa.Function) bool {
+		if call.Common().StaticCallee() == nil || isFan(callee) || callee == a.PutEvent || ro.AppenderRef == recvNamed(callee) {
+			return false
+		}
+		if callee.Object() != nil && callee.Object().Exported() && recvNamed(callee) != a.T {
+			return false
+		}
+		return reaches(callee, 0) || callee == loopFn
+	}
 	ts.OnInstr = func(s *TSCtx, in ssa.Instruction) []string {
 		switch x := in.(type) {
 		case ssa.CallInstruction:
@@ -614,7 +731,7 @@ func (c *Ctx) checkWorkerItems(r *Report, ro *Roles, a *asyncInfo, rule string) 
 			if b, ok := x.Common().Value.(*ssa.Builtin); ok && b.Name() == "close" {
 				return []string{s.A + "CLOSE(" + c.accessPath(x.Common().Args[0], s.Frame) + ");"}
 			}
-			if _, isGo := in.(*ssa.Go); isGo {
+			if isGoStart(in) {
 				return []string{s.A + "GO;"}
 			}
 		}
@@ -717,7 +834,7 @@ func (c *Ctx) checkWorkerItems(r *Report, ro *Roles, a *asyncInfo, rule string) 
 			exits[na] = true
 			na, ch = na+"AFTER;", true
 		}
-		if succ == header && iff.Block() != w.Blocks[0] {
+		if succ == header && iff.Block() != loopFn.Blocks[0] {
 			// a conditional back edge (`if … { … }` as the last statement of the loop body): the iteration ends here
 			records[na] = true
 			return "", true
@@ -725,7 +842,7 @@ func (c *Ctx) checkWorkerItems(r *Report, ro *Roles, a *asyncInfo, rule string) 
 		return na, ch
 	}
 	ts.OnJump = func(s *TSCtx, from, to *ssa.BasicBlock) (string, bool) {
-		if to == header && from != w.Blocks[0] {
+		if to == header && from != loopFn.Blocks[0] {
 			records[s.A] = true
 			return "", true
 		}
@@ -823,7 +940,7 @@ func (c *Ctx) checkWorkerItems(r *Report, ro *Roles, a *asyncInfo, rule string) 
 			if o.Kind != "return" {
 				continue
 			}
-			if !strings.Contains(o.A, "CLOSE(") {
+			if !strings.Contains(o.A, "CLOSE(") && !ro.WorkerDoneByWG {
 				badE = append(badE, "a worker exit path does not signal completion: "+o.A)
 			} else {
 				done++
@@ -1079,7 +1196,7 @@ func checkC06(c *Ctx, r *Report) {
 			continue
 		}
 		eachInstr(f, func(in ssa.Instruction) {
-			if _, ok := in.(*ssa.Go); ok {
+			if isGoStart(in) {
 				goes++
 				if f == a.Worker {
 					bad = append(bad, "the worker starts further goroutines at "+c.instrPos(in))
@@ -1094,7 +1211,7 @@ func checkC06(c *Ctx, r *Report) {
 	}
 	// the go statement is not in a loop
 	eachInstr(a.Start, func(in ssa.Instruction) {
-		if _, ok := in.(*ssa.Go); ok {
+		if isGoStart(in) {
 			if blockInLoop(in.Block(), in.Block()) {
 				bad = append(bad, "the worker is started in a loop")
 			}
@@ -1190,7 +1307,20 @@ func checkC06(c *Ctx, r *Report) {
 	}
 	for _, pk := range a.Policies {
 		key := "C06.policy:" + fname(handler) + "[" + policyName(pk) + "]"
-		outs, trunc := c.runProducer(a, ro, handler, pk.Value.Value, r)
+		// what a log call and a raw write do when the first attempt finds the queue full
+		a.assumeFull = true
+		var outs []prodOut
+		var trunc []string
+		for _, root := range []*ssa.Function{a.Append, a.Write} {
+			o2, t2 := c.runProducer(a, ro, root, pk.Value.Value, r)
+			for _, o := range o2 {
+				if o.st.gate != "F" {
+					outs = append(outs, o)
+				}
+			}
+			trunc = append(trunc, t2...)
+		}
+		a.assumeFull = false
 		if len(trunc) > 0 {
 			r.Undecided(key, c.pos(handler.Pos()), "truncated: %v", trunc)
 			continue
@@ -1239,6 +1369,35 @@ func checkC06(c *Ctx, r *Report) {
 			r.OK(key, "%d exit state(s) consistent with the %s policy", len(outs), policyName(pk))
 		}
 	}
+	// while there is room nothing is dropped: on the paths where no send attempt fails, the item is enqueued and nothing
+	// is removed or counted, whatever the policy
+	for _, pk := range a.Policies {
+		key := "C06.policy:" + fname(handler) + "[" + policyName(pk) + "]#room"
+		a.assumeSpace = true
+		var bad []string
+		n := 0
+		for _, root := range []*ssa.Function{a.Append, a.Write} {
+			o2, t2 := c.runProducer(a, ro, root, pk.Value.Value, r)
+			if len(t2) > 0 {
+				bad = append(bad, fmt.Sprintf("truncated: %v", t2))
+			}
+			for _, o := range o2 {
+				if o.st.gate == "F" {
+					continue
+				}
+				n++
+				if o.st.enq != 1 || o.st.deq != 0 || o.st.cntd != 0 || o.st.cntv != 0 || o.st.rem {
+					bad = append(bad, fmt.Sprintf("%s with room in the queue: enqueued=%d, an item removed=%v, counted-as-dropped=%d (want 1, false, 0) %v", fname(root), o.st.enq, o.st.rem, o.st.cntv+o.st.cntd, o.trail))
+				}
+			}
+		}
+		a.assumeSpace = false
+		if len(bad) > 0 {
+			r.Fail(key, c.pos(handler.Pos()), "%s", strings.Join(firstN(uniq(bad), 2), "; "))
+		} else {
+			r.OK(key, "%d exit state(s): with room in the queue the item is enqueued and nothing is dropped", n)
+		}
+	}
 	// the whole producer path (not only the overflow handler) is non-blocking under the two discard policies:
 	// a check-then-act fast path with a plain send blocks when several producers race for the last slot
 	for _, root := range []*ssa.Function{a.Append, a.Write} {
@@ -1273,15 +1432,20 @@ func checkC06(c *Ctx, r *Report) {
 			continue
 		}
 		removes := false
-		eachInstr(handler, func(in ssa.Instruction) {
-			if sel, ok := in.(*ssa.Select); ok {
-				for _, st := range sel.States {
-					if st.Dir == types.RecvOnly && chanFieldOf(st.Chan) == a.Buf {
-						removes = true
+		for f := range c.reach(a.Append) {
+			if recvNamed(f) != a.T {
+				continue
+			}
+			eachInstr(f, func(in ssa.Instruction) {
+				if sel, ok := in.(*ssa.Select); ok {
+					for _, st := range sel.States {
+						if st.Dir == types.RecvOnly && chanFieldOf(st.Chan) == a.Buf {
+							removes = true
+						}
 					}
 				}
-			}
-		})
+			})
+		}
 		if removes {
 			r.OK("C06.policy:"+fname(handler)+"#removes-head", "DiscardOldest removes by receiving from the same queue (its head)")
 		} else {
@@ -1494,7 +1658,7 @@ func (c *Ctx) checkStopSignal(r *Report, a *asyncInfo) {
 	eachInstr(a.Start, func(in ssa.Instruction) {
 		if st, ok := in.(*ssa.Store); ok {
 			if fa, ok := st.Addr.(*ssa.FieldAddr); ok {
-				if _, isChan := st.Val.(*ssa.MakeChan); isChan {
+				if isFreshChan(st.Val, 0) {
 					made[fieldOfAddr(fa).Name()] = true
 				}
 			}
@@ -1582,6 +1746,21 @@ func (c *Ctx) checkDestroyOrder(r *Report, ro *Roles) {
 						for _, e := range elems {
 							if e.V != nil {
 								registered[rangeSource(c, e.V, fr)] = p
+							}
+						}
+					}
+					// list = slices.AppendSeq(list, maps.Values(m)) / slices.Collect(maps.Values(m)) / slices.AppendSeq(…, slices.Values(s))
+					if pk, _ := calleePkgName(call); pk == "slices" {
+						for _, arg := range call.Call.Args {
+							if inner, ok := arg.(*ssa.Call); ok {
+								if ipk, iname := calleePkgName(inner); (ipk == "maps" || ipk == "slices") && iname == "Values" && len(inner.Call.Args) == 1 {
+									src := inner.Call.Args[0]
+									pp := c.accessPath(src, fr)
+									if strings.HasPrefix(pp, "?") || strings.HasPrefix(pp, "alloc:") {
+										pp = fmt.Sprintf("%s:%s", src.Name(), types.TypeString(src.Type(), shortQual))
+									}
+									registered[pp] = p
+								}
 							}
 						}
 					}
@@ -2232,4 +2411,31 @@ func (c *Ctx) checkFdBound(r *Report, ro *Roles) {
 	} else {
 		r.OK(key, "%d exit state(s): every overwrite of a file-holding field follows a close or a hand-over of its previous content (≤ %d descriptors)", len(outs), len(fields))
 	}
+}
+
+// isFreshChan: v is a make(chan …), possibly through a local variable that holds nothing else.
+func isFreshChan(v ssa.Value, d int) bool {
+	if d > 4 {
+		return false
+	}
+	switch x := v.(type) {
+	case *ssa.MakeChan:
+		return true
+	case *ssa.ChangeType:
+		return isFreshChan(x.X, d+1)
+	case *ssa.UnOp:
+		if al, ok := x.X.(*ssa.Alloc); ok && x.Op == token.MUL {
+			sts := storesTo(al)
+			if len(sts) == 0 {
+				return false
+			}
+			for _, st := range sts {
+				if !isFreshChan(st.Val, d+1) {
+					return false
+				}
+			}
+			return true
+		}
+	}
+	return false
 }
